@@ -226,6 +226,6 @@ def jobs(tier):
     for sc in ('inside', 'zero', 'cd_outside'):
         for bidir in (False, True):
             js.append(dict(name=f'H19:response:{sc}:{"bidir" if bidir else "unidir"}', fn='h_response', params=dict(scenario=sc, bidir=bidir),
-                           cost=200 if bidir else 60, witness_every=3, budget_s=150 if tier == 'quick' else 1500))
+                           cost=200 if bidir else 60, witness_every=3, budget_s=150 if tier == 'quick' else 600))
     js.append(dict(name='H19:aggregation', fn='h_aggregation', cost=5))
     return js
